@@ -20,11 +20,11 @@ demo() {
   else (cd seed_demo && CARGO_TARGET_DIR=$WT/target cargo test --offline "$@" 2>&1 | grep -E "^test |test result" | head -40); fi
 }
 demo "$@" | tee -a "$LOG"
-git stash push -- crates >/dev/null 2>&1
+git diff -- crates > "$OUT/patch.diff"
+git apply -R "$OUT/patch.diff"   # (not `git stash`: the stash is shared between worktrees)
 echo "== demo without change (expected to pass)" | tee -a "$LOG"
 demo "$@" | tee -a "$LOG"
-git stash pop >/dev/null 2>&1
-git diff -- crates > "$OUT/patch.diff"
+git apply "$OUT/patch.diff"
 mkdir -p "$OUT/demo"
 rsync -a --exclude target --exclude '*.log' seed_demo/ "$OUT/demo/" 2>/dev/null
 rm -f "$OUT/demo/patch.diff"
